@@ -28,3 +28,4 @@
   (ite (= s "node") kNode (ite (= s "way") kWay (ite (= s "relation") kRelation
   (ite (= s "changeset") kChangeset (ite (= s "note") kNote (ite (= s "user") kUser
   (ite (= s "bounds") kBounds #x0000000000000000))))))))
+(define-fun kindNameU ((k (_ BitVec 64))) String (ite (isElemKind k) (kindName k) "unknown"))
